@@ -35,26 +35,29 @@ type Job struct {
 
 // WorkerSummary is the last line a search worker writes.
 type WorkerSummary struct {
-	Kind            string         `json:"kind"` // "summary"
-	Runs            int            `json:"runs"`
-	Outcomes        map[string]int `json:"outcomes"`
-	EndReasons      map[string]int `json:"end_reasons"`
-	NonTrivial      int            `json:"nontrivial"`
-	Sigs            []uint64       `json:"sigs"` // hashes of behaviour signatures of non-trivial runs
-	Faults          map[string]int `json:"faults"`
-	Probes          map[string]int `json:"probes"`
-	Choices         int            `json:"choices"`
-	Steps           int64          `json:"steps"`
-	SimMs           int64          `json:"sim_ms"`
-	Preempt         int64          `json:"preemptions"`
-	SelfChecks      int            `json:"selfchecks"`
-	SelfCheckBad    int            `json:"selfcheck_bad"`
-	Known           map[string]int `json:"known"`
-	Samples         []any          `json:"samples"`
-	WallS           float64        `json:"wall_s"`
-	Variants        int            `json:"variants"`
-	HarnessErrs     []string       `json:"harness_errs,omitempty"`
-	AbandonedPanics []string       `json:"abandoned_panics,omitempty"`
+	Kind         string         `json:"kind"` // "summary"
+	Runs         int            `json:"runs"`
+	Outcomes     map[string]int `json:"outcomes"`
+	EndReasons   map[string]int `json:"end_reasons"`
+	NonTrivial   int            `json:"nontrivial"`
+	Sigs         []uint64       `json:"sigs"` // hashes of behaviour signatures of non-trivial runs
+	Faults       map[string]int `json:"faults"`
+	Probes       map[string]int `json:"probes"`
+	Choices      int            `json:"choices"`
+	Steps        int64          `json:"steps"`
+	SimMs        int64          `json:"sim_ms"`
+	Preempt      int64          `json:"preemptions"`
+	SelfChecks   int            `json:"selfchecks"`
+	SelfCheckBad int            `json:"selfcheck_bad"`
+	Known        map[string]int `json:"known"`
+	Samples      []any          `json:"samples"`
+	WallS        float64        `json:"wall_s"`
+	Variants     int            `json:"variants"`
+	HarnessErrs  []string       `json:"harness_errs,omitempty"`
+	// Unfinished: runs that ended by the step budget or the horizon before the
+	// scenario stopped itself (the final oracle did not run)
+	Unfinished      []string `json:"unfinished,omitempty"`
+	AbandonedPanics []string `json:"abandoned_panics,omitempty"`
 }
 
 func seedFor(base uint64, prop string, idx int) uint64 {
@@ -179,6 +182,9 @@ func workerSearch(t *testing.T, job *Job, enc *json.Encoder) {
 		sum.Runs++
 		sum.Outcomes[res.Outcome]++
 		sum.EndReasons[res.EndReason]++
+		if (res.EndReason == "budget" || res.EndReason == "horizon") && res.Outcome == "ok" && len(sum.Unfinished) < 5 {
+			sum.Unfinished = append(sum.Unfinished, fmt.Sprintf("seed=%d variant=%q ended by %s after %d steps, %d simulated ms", spec.Seed, spec.Variant, res.EndReason, res.Steps, res.SimTimeMs))
+		}
 		sum.Steps += int64(res.Steps)
 		sum.SimMs += res.SimTimeMs
 		sum.Preempt += int64(res.Preempt)
